@@ -167,6 +167,18 @@ Definition ex_state : chan * sock :=
     [AArrive (frame ex_payload ++ firstn 5 (frame ex_payload)); AEvent true false; AReadable]
     (new_chan 16 64, empty_sock).
 
+(** 13. Re-typing the channel ([Channel::into], done by the worker after its
+        blocking handshake while requests may already sit in the read buffer) keeps
+        every buffered byte, the interest and the readiness: reads, writes and the
+        invariant are the same before and after. *)
+Theorem retype_keeps_everything :
+  forall (decodable : list N -> bool) c s,
+    retype c = c /\
+    read_message decodable (retype c) = read_message decodable c /\
+    readable (retype c) s = readable c s /\
+    writable (retype c) s = writable c s.
+Proof. exact retype_transparent. Qed.
+
 Example ex_state_meets_delivery_hypotheses :
   chan_inv (fst ex_state) /\ usize_ok (fst ex_state) /\
   dat (front (fst ex_state)) = frame ex_payload ++ firstn 5 (frame ex_payload) /\
